@@ -909,6 +909,10 @@ class Engine:
         return out
 
     def binop(self, p, op, l, r):
+        if isinstance(l, Sentinel) or isinstance(r, Sentinel) or ((l is None or r is None) and not isinstance(op, ast.Add)):
+            # arithmetic on a sentinel / None raises TypeError at run time: this path must be unreachable
+            self.oblige(p, 'type.arith.operand_is_not_a_sentinel', BoolVal(False), 'type')
+            return SInt(fresh('typeerror', IntSort()))
         if is_concrete(l) and is_concrete(r) and not isinstance(l, tuple):
             try:
                 return {ast.Add: lambda a, b: a + b, ast.Sub: lambda a, b: a - b, ast.Mult: lambda a, b: a * b,
